@@ -11,14 +11,36 @@ VER = ("int", 0, 255)
 H = "verif.harness.taproot."
 
 
-def INJ(m, env):
-    """setup hook: ask the curve theory for its pairwise instances of  x(a) = x(b) => a = +-b  and
-    (x, y)(a) = (x, y)(b) => a = b  (theories.register_scalar; A-PRIME).  Needed wherever the code re-parses a
-    point from its x-only bytes (ControlBlock.parse, MuSigTapScript.__init__) and then computes with it."""
-    m.curve_injectivity = True
+def PARSE_XONLY_LEMMA(m, env):
+    """setup hook of the MuSig contracts: inside them a call  S256Point.parse_xonly(x32(P))  for a point P that
+    is already on the path is replaced by its PROVED contract (verif.harness.taproot.parse_xonly_of, property C12:
+    parse_xonly(P.xonly()) is the even-y point with P's x, i.e. P or -P) instead of re-executing the modular
+    square root.  Any other argument falls through to the real code.  Reason: the real body yields a point with a
+    fresh discrete logarithm plus square-root facts mod p, after which neither zn_ring nor z3 can relate
+    sum(c_i * parsed_i) to the secrets (see notes/C12_C13.md); in the discrete-log model a point is determined by
+    (x, y) (A-PRIME), which is what this substitution uses."""
+    import z3
+    from buidl.pecc import S256Point
+    from verif.pyvc import theories
+
+    def i_parse_xonly(mm, args, kwargs):
+        if len(args) != 2 or kwargs:
+            return NotImplemented
+        try:
+            x = mm.it(mm.with_int_mode(lambda: mm.int_from_bytes(args[1], "big")))
+        except Exception:
+            return NotImplemented
+        xs = z3.simplify(x)
+        for c0 in list(mm.p.__dict__.get("_curve_scalars", [])):
+            if z3.simplify(theories.Xc(c0)).eq(xs):
+                if mm.p.branch(theories.Yc(c0) % 2 == 0):
+                    return theories.mk_point(mm, c0)
+                return theories.mk_point(mm, -c0)
+        return NotImplemented
+    m.intrinsics[S256Point.parse_xonly.__func__] = i_parse_xonly
 
 
-INJ.conc = lambda env, glob: None
+PARSE_XONLY_LEMMA.conc = lambda env, glob: None
 
 
 def _rb(rng, n):
@@ -78,7 +100,8 @@ _L1, _L2 = "spec.taproot.tapleaf_hash(v1, raw1)", "spec.taproot.tapleaf_hash(v2,
 contract(H + "branch_hash_swapped", props=("C12",), params=_BR, requires=[_inj(_L1, _L2)],
          ensures=["returns()", "result[0] == result[1]"], gen=_gen_branch)
 _K1, _K2, _K3 = ("spec.taproot.tapleaf_hash(0xC0, raw%d)" % i for i in (1, 2, 3))
-contract(H + "branch3_hashes", props=("C12",), params={"raw1": RAW, "raw2": RAW, "raw3": RAW},
+RAW80 = ("bytes", 1, 80)
+contract(H + "branch3_hashes", props=("C12",), params={"raw1": RAW80, "raw2": RAW80, "raw3": RAW80},
          requires=[_inj(_K1, _K2), _inj("spec.taproot.tapbranch_hash(%s, %s)" % (_K1, _K2), _K3)],
          ensures=["returns()", "result[0] == result[1] and result[0] == result[2] and result[0] == result[3]",
                   "result[0] == spec.taproot.tree_hash((((0xC0, raw1), (0xC0, raw2)), (0xC0, raw3)))"],
@@ -197,7 +220,7 @@ for _k in range(4):
              ensures=["returns()", "spec.curve.same(result, spec.taproot.output_key(pub, %s))" % _root,
                       "result.xonly() == spec.taproot.x32(spec.taproot.output_key(pub, %s))" % _root,
                       "result.parity == spec.taproot.parity(spec.taproot.output_key(pub, %s))" % _root],
-             gen=_gen_cb(_k, True))
+             gen=_gen_cb(_k, True), tiers=("quick", "thorough") if _k <= 2 else ("thorough",))
 
 
 # ---------------------------------------------------------------------------- whole trees, every leaf
@@ -271,7 +294,9 @@ for _name, (_shape, _var) in TREES.items():
              requires=(["spec.taproot.tweak_defined(pub, spec.taproot.tree_hash(%s))" % _T]
                        + ["d%d != d%d" % (i, j) for i in _names for j in _names if i < j]      # case split, see TREES
                        + _sibling_distinct(_shape, _var)),
-             ensures=_ens, gen=_gen_tree(_n, _var), tiers=("quick", "thorough") if _n <= 3 else ("thorough",))
+             ensures=_ens, gen=_gen_tree(_n, _var),
+             # quick tier: the shapes with distinct leaves up to 3 leaves and the 2-leaf duplicate; the rest costs 5-35 s each
+             tiers=("quick", "thorough") if _name in ("tree1", "tree2", "tree2_dup", "tree3a", "tree3b") else ("thorough",))
 
 
 # ---------------------------------------------------------------------------- control block codec
@@ -318,7 +343,8 @@ def _gen_cb_len(rng, tier):
 # generator point as internal key so that the on-curve test is concrete; arbitrary 32 key bytes: C06 cb_parse_fields.)
 contract(H + "cb_parse_short", props=("C12",), params={"b": ("bytes", 0, 32)},
          ensures=["raises(ValueError)"], gen=lambda rng, tier: ({"b": _rb(rng, n)} for n in range(33)))
-contract(H + "cb_parse_len_gx", props=("C12",), params={"first": "bytes:1", "tail": ("bytes", 0, 32 * 129 + 5)},
+for _sfx, _hi, _tiers in (("", 32 * 129 + 5, ("thorough",)), ("#short", 32 * 4 + 5, ("quick", "thorough"))):
+  contract(H + "cb_parse_len_gx" + _sfx, props=("C12",), params={"first": "bytes:1", "tail": ("bytes", 0, _hi)}, tiers=_tiers,
          ensures=["implies(not spec.taproot.control_block_len_ok(33 + len(tail)), raises(ValueError))",
                   "implies(returns(), spec.taproot.control_block_len_ok(33 + len(tail)))",
                   "implies(spec.taproot.control_block_len_ok(33 + len(tail)), returns())",
@@ -367,15 +393,15 @@ for _n in (2, 3):
     _dparams = {"d%d" % i: SEC for i in range(1, _n + 1)}
     _distinct = ["spec.taproot.musig_keys_distinct(%s)" % _ds(_n)]
     # key aggregation == the description, and it does not depend on the order in which the keys are listed
-    contract(H + "musig_agg%d" % _n, props=("C13",), nl_uf=True, setup=INJ, params=dict(_dparams),
+    contract(H + "musig_agg%d" % _n, props=("C13",), nl_uf=True, setup=PARSE_XONLY_LEMMA, params=dict(_dparams),
              requires=_distinct,
              ensures=["returns()", "spec.curve.same(result, spec.taproot.musig_agg_of_secrets(%s))" % _ds(_n)],
              gen=_only(_gen_musig(_n, False), *_dparams))
-    contract(H + "musig_agg%d_orders" % _n, props=("C13",), nl_uf=True, setup=INJ, params=dict(_dparams),
+    contract(H + "musig_agg%d_orders" % _n, props=("C13",), nl_uf=True, setup=PARSE_XONLY_LEMMA, params=dict(_dparams),
              requires=_distinct,
              ensures=["returns()"] + ["spec.curve.same(result[0], result[%d])" % j for j in range(1, 2 if _n == 2 else 6)],
              gen=_only(_gen_musig(_n, False), *_dparams))
-    for _sfx, _kind in (("plain", ("const", b"")), ("root", H32)):
+    for _sfx, _kind in ((("plain", ("const", b"")), ("root", H32)) if _n == 2 else (("plain", ("const", b"")),)):
         _p = dict(_dparams)
         for i in range(1, _n + 1):
             _p["k%d1" % i] = SEC
@@ -386,10 +412,18 @@ for _n in (2, 3):
         for _perm in itertools.permutations(range(1, _n + 1)):
             _dsp = "[%s]" % ", ".join("d%d" % i for i in _perm)
             _ksp = "[%s]" % ", ".join("(k%d1, k%d2)" % (i, i) for i in _perm)
-            contract(H + "musig_flow%d#%s-order%s" % (_n, _sfx, "".join(map(str, _perm))), props=("C13",), nl_uf=True,
-                     setup=INJ, params=_p,
-                     requires=["spec.taproot.musig_defined_sorted(%s, %s, msg, root)" % (_dsp, _ksp)],
+            # ... and per parity of the first listed key (halves the number of paths per job)
+            for _par in (0, 1):
+              contract(H + "musig_flow%d#%s-order%s-%s" % (_n, _sfx, "".join(map(str, _perm)), "even" if _par == 0 else "odd"),
+                     props=("C13",), nl_uf=True, setup=PARSE_XONLY_LEMMA, params=_p,
+                     requires=["spec.taproot.parity(spec.curve.mul_G(d1)) == %d" % _par,
+                               "spec.taproot.musig_defined_sorted(%s, %s, msg, root)" % (_dsp, _ksp)],
                      ensures=["returns()",
                               "result[0] == spec.taproot.x32(spec.taproot.musig_session_key_sorted(%s, root))" % _dsp,
                               "spec.schnorr.verify(result[0], msg, result[1]) is True"],
-                     gen=_gen_musig(_n, _sfx == "root"), tiers=("thorough",))
+                     gen=_gen_musig(_n, _sfx == "root"),
+                     # thorough tier only.  Stand-alone wall time (python3-vt -m verif.one): n = 2 plain about 2 min per sort order
+                     # (432 paths, 1296 obligations), n = 2 with merkle root about 8 min (1296 paths, 3888 obligations);
+                     # inside the 16-process pool of verif.check the same jobs run 3-4 times slower; n = 3 did not finish
+                     # within 25 minutes stand-alone (see notes/C12_C13.md)
+                     tiers=("thorough",))
